@@ -117,6 +117,72 @@ func c18Agreements(r *Run) {
 	if nPairs < 2 {
 		r.bad("C18.R8", "joined-key|matcher", "-", "at least 2 GetAll/SetAll pairs with joined keys", fmt.Sprintf("only %d found", nPairs))
 	}
+	// ---- exported identifiers are relative to the family prefix: an exporter that iterates the module store itself
+	// (not a prefix store) with a non-empty prefix gets absolute keys from iterator.Key(); writing string(Key())
+	// into the exported element hands the importer an identifier that already contains the prefix, and the
+	// importer's key constructor adds it once more
+	{
+		nIter := 0
+		for _, gv := range w.allViews() {
+			rel := w.relFile(gv.Decl.Pos())
+			nm := gv.Obj.Name()
+			if gv.Decl.Body == nil || !strings.HasPrefix(rel, "x/") || !strings.Contains(rel, "/keeper/") || !(strings.HasPrefix(nm, "GetAll") || (strings.HasPrefix(nm, "All") && len(nm) > 3 && nm[3] >= 'A' && nm[3] <= 'Z')) {
+				continue
+			}
+			for _, ic := range gv.CallsNamed("KVStorePrefixIterator") {
+				if len(ic.Args) != 2 {
+					continue
+				}
+				nIter++
+				raw := false
+				for _, d := range gv.resolveDefs(ic.Args[0], 0) {
+					if _, name, _, isM := methodCall(d); isM && name == "KVStore" {
+						raw = true
+					}
+				}
+				// the store variable may be re-assigned to a prefix store before the iterator is made
+				if o := gv.objOf(ic.Args[0]); o != nil {
+					for _, as := range gv.assignmentsTo(o) {
+						if as.End() < ic.Pos() && len(as.Rhs) == 1 && strings.HasSuffix(gv.calleeName2(as.Rhs[0]), "NewStore") {
+							raw = false
+						}
+					}
+				}
+				emptyPrefix := isNilIdent(gv.Info, ic.Args[1])
+				if cl, isCL := stripParens(ic.Args[1]).(*ast.CompositeLit); isCL && len(cl.Elts) == 0 {
+					emptyPrefix = true
+				}
+				if !raw || emptyPrefix {
+					continue
+				}
+				// the iterator variable
+				var iterObj types.Object
+				if as, isAs := gv.parent(ic).(*ast.AssignStmt); isAs && len(as.Lhs) == 1 {
+					iterObj = gv.objOf(as.Lhs[0])
+				}
+				bad := ""
+				ast.Inspect(gv.Decl.Body, func(n ast.Node) bool {
+					c, ok := n.(*ast.CallExpr)
+					if !ok || len(c.Args) != 1 || exprString(c.Fun) != "string" {
+						return true
+					}
+					if recv, name, _, isM := methodCall(c.Args[0]); isM && name == "Key" && iterObj != nil && gv.objOf(recv) == iterObj {
+						// handed on to a function (TrimPrefix, a key parser) it is processed further; used as a value
+						// (a field of the exported element, an assignment) it is exported as it is
+						if pc, isArg := gv.parent(c).(*ast.CallExpr); isArg && pc.Fun != ast.Expr(c) {
+							return true
+						}
+						bad = gv.pos(c)
+					}
+					return true
+				})
+				r.check(bad == "", "C18.R8", "exported-key-relative|"+gv.ID(), gv.pos(ic), "an exporter iterating the module store itself does not export the absolute store key as an identifier", gv.ID()+" iterates the module store (no prefix store) under a prefix and writes string(iterator.Key()) at "+bad+" into the exported element: the identifier contains the family prefix, the importer's key constructor adds the prefix again, and after a round trip the entry sits under a doubled prefix where no reader looks")
+			}
+		}
+		if nIter < 10 {
+			r.bad("C18.R8", "exported-key-relative|matcher", "-", "at least 10 iterators in exporters", fmt.Sprintf("only %d found", nIter))
+		}
+	}
 	// ---- dogfood validator set bound
 	if dv := w.View("x/dogfood/types", "GenesisState.Validate"); dv == nil {
 		r.bad("C18.R8", "valset-bound", "-", "anchor", "dogfood GenesisState.Validate not found")
